@@ -38,7 +38,7 @@ def run(ctx):
     for fk, kind, subj in (("BlsSignatureCore::core_verify", "is_identity", ("param", "sig")), ("BlsSignatureCore::core_verify", "is_identity", ("param", "pk")), ("BlsSignatureCore::core_sign", "is_zero", ("param", "sk"))):
         R.check_result_guard(ctx, "E4.result", P, fk, kind, subj)
     F.check_no_effects(ctx, "E7.deterministic", P, ["SecretKey<C>::proof_of_possession", "ProofOfPossession<C>::verify", "SecretKey<C>::public_key"])
-    for fk in ("helpers::pairing_g1_g2", "helpers::pairing_g2_g1"):
+    for fk in ("<Bls12381G1Impl as Pairing>::pairing", "<Bls12381G2Impl as Pairing>::pairing"):
         check_pipeline(ctx, P, fk)
     # "for every non-zero secret key": proving and verifying return for every key (no abort-capable site on the way
     # that is not discharged) - with and without debug assertions
